@@ -605,15 +605,120 @@ VH_CMD(net_punish)
         net.Ev(vh::J().str("ev", "start"));
 
         Punish g{net, rng, blocksonly, {}, {}, {}, {}, {}, nullptr};
+        // ---- blocks whose validation is DELAYED: stored when delivered, validated (and found invalid) only when a later message
+        // of another peer makes the node try to connect them.
+        //   kind 0: X sends a sibling of the tip (equal work) that is invalid in ConnectBlock; later Y sends a valid-looking child of it
+        //   kind 1: H announces headers [P, C]; X sends the child C (invalid in ConnectBlock) first; later Y sends the valid parent P
+        struct Delayed {
+            int kind{0}, stage{0}, X{-1};
+            std::shared_ptr<CBlock> bad, other;
+            uint256 tip_at_start;
+        };
+        struct PendingVerdict {
+            uint256 hash;
+            int sender;
+            std::string cls;
+            bool reported{false};
+        };
+        std::optional<Delayed> dl;
+        std::vector<PendingVerdict> pending;
+        int delayed_left = rng.chance(4, 5) ? 1 + static_cast<int>(rng.below(2)) : 0;
+        int delayed_start = static_cast<int>(rng.range(1, 14));
+        auto bad_block_spec = [&](BlockSpec& s) {
+            // invalid only in ConnectBlock: coinbase overpays by 1 sat, or a transaction with a bad signature
+            if (rng.coin()) {
+                s.cb_delta = 1;
+            } else if (auto coin = TryCoin(net, rng, true)) {
+                s.txs = {SimpleSpend(net, *coin, 10000, CoinKind::P2WPKH, Mall::BADSIG)};
+                s.fees = 10000;
+            } else {
+                s.cb_delta = 1;
+            }
+        };
         for (int step = 0; step < nsteps; ++step) {
             std::vector<int> live;
             for (int p : peers) {
                 if (!net.Disconnected(p)) live.push_back(p);
             }
             if (live.empty()) break;
-            const int p = rng.pick(live);
+            int p = rng.pick(live);
             const uint64_t r = rng.below(100);
-            Punish::Out o = r < 42 ? g.MakeTx() : r < 60 ? g.MakeBlock() : r < 70 ? g.MakeHeaders() : g.MakeMisc(net.Spec(p));
+            Punish::Out o;
+            bool scripted = false;
+            if (dl && dl->tip_at_start != net.TipHash() && !(dl->kind == 1 && dl->stage == 3)) dl.reset(); // the tip moved under the scenario: give up
+            if (!dl && delayed_left > 0 && step >= delayed_start && live.size() >= 2 && net.TipHeight() >= 2) {
+                dl = Delayed{};
+                dl->kind = static_cast<int>(rng.below(2));
+                dl->tip_at_start = net.TipHash();
+                --delayed_left;
+                delayed_start = step + 4;
+            }
+            if (dl && rng.chance(3, 4)) {
+                scripted = true;
+                auto other_than_x = [&] {
+                    std::vector<int> v;
+                    for (int q : live) {
+                        if (q != dl->X) v.push_back(q);
+                    }
+                    return v.empty() ? p : rng.pick(v);
+                };
+                if (dl->kind == 0 && dl->stage == 0) {
+                    BlockSpec s;
+                    const int h = net.TipHeight();
+                    s.prev = WITH_LOCK(cs_main, return net.chainman().ActiveChain()[h - 1]->GetBlockHash());
+                    s.height = h;
+                    s.time = net.TipTime();
+                    bad_block_spec(s);
+                    dl->bad = net.BuildBlock(s);
+                    dl->X = p;
+                    o = g.BlockMsg("block_delayed_sibling", dl->bad);
+                    pending.push_back({dl->bad->GetHash(), p, o.cls});
+                    dl->stage = 1;
+                } else if (dl->kind == 0 && dl->stage == 1) {
+                    BlockSpec s;
+                    s.prev = dl->bad->GetHash();
+                    s.height = net.TipHeight() + 1;
+                    s.time = dl->bad->nTime + 1;
+                    p = other_than_x();
+                    o = g.BlockMsg("block_child_of_delayed", net.BuildBlock(s));
+                    dl.reset();
+                } else if (dl->kind == 1 && dl->stage == 0) {
+                    BlockSpec sp = g.TipSpec();
+                    dl->other = net.BuildBlock(sp);
+                    BlockSpec sc;
+                    sc.prev = dl->other->GetHash();
+                    sc.height = sp.height + 1;
+                    sc.time = sp.time + 1;
+                    bad_block_spec(sc);
+                    dl->bad = net.BuildBlock(sc);
+                    o.type = "headers";
+                    o.cls = "headers_delayed_pair";
+                    o.payload = SerHeaders({static_cast<const CBlockHeader&>(*dl->other), static_cast<const CBlockHeader&>(*dl->bad)});
+                    dl->stage = 1;
+                } else if (dl->kind == 1 && dl->stage == 1) {
+                    dl->X = p;
+                    o = g.BlockMsg("block_delayed_child", dl->bad);
+                    pending.push_back({dl->bad->GetHash(), p, o.cls});
+                    dl->stage = 2;
+                } else {
+                    p = other_than_x();
+                    o = g.BlockMsg("block_delayed_parent", dl->other);
+                    g.last_valid_block = dl->other;
+                    dl.reset();
+                }
+            } else if (dl) {
+                // interleaved traffic that cannot move the tip, preferably not from X (so that X is still connected when the verdict comes)
+                std::vector<int> v;
+                for (int q : live) {
+                    if (q != dl->X) v.push_back(q);
+                }
+                if (!v.empty()) p = rng.pick(v);
+                do {
+                    o = r < 60 ? g.MakeTx() : g.MakeMisc(net.Spec(p));
+                } while (o.type == "cmpctblock" || o.type == "blocktxn");
+            } else {
+                o = r < 42 ? g.MakeTx() : r < 60 ? g.MakeBlock() : r < 70 ? g.MakeHeaders() : g.MakeMisc(net.Spec(p));
+            }
             net.Ev(vh::J().str("ev", "step").i("n", step).i("p", p).str("cls", o.cls));
             net.Send(p, o.type, o.payload, o.cls, o.meta);
             if (o.block_hash) {
@@ -624,6 +729,13 @@ VH_CMD(net_punish)
                     g.invalid_blocks.push_back(*o.block_hash);
                     g.invalid_block_payloads.push_back(o.payload);
                 }
+            }
+            for (auto& pv : pending) {
+                if (pv.reported) continue;
+                const std::string v = net.Verdict(pv.hash);
+                if (v.empty()) continue;
+                pv.reported = true;
+                net.Ev(vh::J().str("ev", "delayed_verdict").str("hash", HexLE(pv.hash)).str("v", v).i("sender", pv.sender).str("cls", pv.cls).b("same_step", pv.sender == p && o.block_hash && *o.block_hash == pv.hash));
             }
             // the next two ProcessMessages / SendMessages rounds of the sender, then one SendMessages round of everybody else
             for (int round = 0; round < 2; ++round) {
@@ -1025,23 +1137,35 @@ VH_CMD(net_malleate)
                                        {CoinKind::P2TR, Mall::STRIPPED}, {CoinKind::P2WSH_DROP, Mall::PAD_ALT}};
         const Variant var = VARS[c % 8];
         const bool orphan = (c / 8) % 2 == 1;
+        const bool unconf = (c / 16) % 2 == 1; // T spends an UNCONFIRMED witness output (of G0, accepted into the mempool first)
         const CAmount fee = 20000;
-        Utxo coin = net.TakeCoin(var.kind);
+        MpTracker mp;
+        Utxo coin;
+        CTransactionRef G0;
+        if (unconf) {
+            Utxo c0 = net.TakeCoin(CoinKind::P2WPKH);
+            G0 = SimpleSpend(net, c0, fee, var.kind, Mall::NONE);
+            mp.Track(G0);
+            net.Send(H3, "tx", SerTx(*G0), "tx_G0", TxMeta(*G0));
+            mp.Poll(net);
+            coin = Net::OutputAsCoin(*G0, 0, var.kind);
+        } else {
+            coin = net.TakeCoin(var.kind);
+        }
         // T is the transaction that gets malleated: G itself, or G's unconfirmed parent
         CTransactionRef T = SimpleSpend(net, coin, fee, CoinKind::P2WPKH, Mall::NONE);
         CTransactionRef M = SimpleSpend(net, coin, fee, CoinKind::P2WPKH, var.mall);
         CTransactionRef child; // only in the orphan variant: spends T:0
         if (orphan) child = SimpleSpend(net, Net::OutputAsCoin(*T, 0, CoinKind::P2WPKH), fee, CoinKind::P2WPKH, Mall::NONE);
-        MpTracker mp;
         mp.Track(T);
         mp.Track(M);
         if (child) mp.Track(child);
-        net.Ev(vh::J().str("ev", "scenario").str("kind", CoinKindName(var.kind)).str("mall", MallName(var.mall)).b("orphan", orphan).raw("T", TxMeta(*T)).raw("M", TxMeta(*M)).raw("child", child ? TxMeta(*child) : "null"));
+        net.Ev(vh::J().str("ev", "scenario").str("kind", CoinKindName(var.kind)).str("mall", MallName(var.mall)).b("orphan", orphan).b("unconf", unconf).b("G0_in", G0 ? net.mempool().exists(G0->GetWitnessHash()) : false).raw("T", TxMeta(*T)).raw("M", TxMeta(*M)).raw("child", child ? TxMeta(*child) : "null"));
 
         // who has been asked for what (engine-side bookkeeping only to script plausible replies; the oracle re-derives it)
         auto await_requests = [&](int extra_wait) {
             // let the request schedule run: past the non-preferred / txid delays, then (if asked) past an unanswered request
-            net.Advance(3);
+            net.Advance(5);
             for (int p : all) net.SendMessages(p);
             if (extra_wait) {
                 net.Advance(extra_wait);
@@ -1137,8 +1261,8 @@ VH_CMD(net_malleate)
                 net.Send(from, "tx", SerTx(*child), "tx_child", TxMeta(*child));
                 process_all();
                 // the node may now ask the sender for the parent by txid; the attacker answers with the malleated copy
-                net.Advance(3);
-                net.SendMessages(from);
+                net.Advance(5);
+                for (int p : all) net.SendMessages(p);
                 if (requested_from(from, T->GetHash().ToUint256())) {
                     if (from == A2) {
                         net.Send(A2, "tx", SerTx(*M), "tx_M", TxMeta(*M));
@@ -1157,6 +1281,8 @@ VH_CMD(net_malleate)
                 if (requested_from(H1, child->GetWitnessHash().ToUint256())) {
                     net.Send(H1, "tx", SerTx(*child), "tx_child", TxMeta(*child));
                     process_all();
+                    net.Advance(5); // orphan resolution: the missing parent is requested after the non-preferred / txid delays
+                    for (int p : all) net.SendMessages(p);
                 }
                 break;
             }
